@@ -163,7 +163,11 @@ func runJob(t *testing.T, job *Job) (res *Result) {
 		res.Tape = tape.Used()
 		res.Ops = r.opsLog
 		res.Sched = r.sched
-		for _, e := range tailEvents(r.s, 60) {
+		tailN := 60
+		if v := os.Getenv("BSIM_LOGTAIL"); v != "" {
+			fmt.Sscanf(v, "%d", &tailN) // debugging aid: longer event-log tail in the result
+		}
+		for _, e := range tailEvents(r.s, tailN) {
 			res.LogTail = append(res.LogTail, e.String())
 		}
 		if job.Trace {
